@@ -545,3 +545,26 @@ func shortVal(v ssa.Value) string {
 	}
 	return n
 }
+
+// FieldNameOf returns the name of the field addressed by fa.
+func FieldNameOf(fa *ssa.FieldAddr) string {
+	if f := fieldOfAddr(fa); f != nil {
+		return f.Name()
+	}
+	return ""
+}
+
+// EnumName returns the name of the package-level constant of k's named type that has k's value ("" when none).
+func EnumName(k *ssa.Const) string {
+	n, ok := k.Type().(*types.Named)
+	if !ok || n.Obj().Pkg() == nil || k.Value == nil {
+		return ""
+	}
+	sc := n.Obj().Pkg().Scope()
+	for _, name := range sc.Names() {
+		if kc, ok := sc.Lookup(name).(*types.Const); ok && types.Identical(kc.Type(), n) && constant.Compare(kc.Val(), token.EQL, k.Value) {
+			return name
+		}
+	}
+	return ""
+}
